@@ -123,6 +123,11 @@ def run_hexcase(run, P, units=('coap_uri.c',)):
                         for a, c in ((x['l'], x['r']), (x['r'], x['l'])):
                             K = const_int(c)
                             if K is not None and (65 <= K <= 70 or 97 <= K <= 102) and const_int(a) is None:
+                                # a comparison that folds the case first (tolower / toupper / a 0x20 mask) covers both spellings by itself
+                                if any(isinstance(y, dict) and ((y.get('k') == 'call' and y.get('fn') in ('tolower', 'toupper')) or
+                                                               (y.get('k') == 'bin' and y.get('op') in ('|', '&') and (const_int(y.get('r')) in (0x20, 0xdf, -33) or const_int(y.get('l')) in (0x20, 0xdf, -33))))
+                                       for y in walk(a)):
+                                    continue
                                 cnt[(short(strip(a)), K)] += 1
                                 locs[(short(strip(a)), K)] = loc
             lab = b.get('label')
